@@ -44,12 +44,17 @@ pub struct Page {
     pub next: Option<u32>,
 }
 #[derive(Deserialize, Schema)]
+#[serde(rename_all = "camelCase")]
 pub struct Search {
     // (required fields on purpose not in alphabetical order, with an optional one between them)
     pub q: String,
     pub lang: String,
     pub page: Option<u32>,
     pub from: u32,
+    // names as serde reads them: the container's rule applies to `page_size` (-> pageSize); an explicit rename wins over the rule (stays sort_by)
+    pub page_size: Option<u32>,
+    #[serde(rename = "sort_by")]
+    pub sort: Option<String>,
 }
 #[derive(Deserialize, Schema)]
 pub struct LoginForm {
@@ -98,11 +103,11 @@ pub const SIGS: [Sig; 10] = [
     Sig { id: 0, params: &[], query: &[], body: None, codes: &[200], sample_body: "", components: &[] },
     Sig { id: 1, params: &["integer"], query: &[], body: None, codes: &[200], sample_body: "", components: &[] },
     Sig { id: 2, params: &["string", "integer"], query: &[], body: None, codes: &[200], sample_body: "", components: &["Item"] },
-    Sig { id: 3, params: &[], query: &[("q", true, "string"), ("lang", true, "string"), ("page", false, "integer"), ("from", true, "integer")], body: None, codes: &[200], sample_body: "", components: &["Page", "Item"] },
+    Sig { id: 3, params: &[], query: &[("q", true, "string"), ("lang", true, "string"), ("page", false, "integer"), ("from", true, "integer"), ("pageSize", false, "integer"), ("sort_by", false, "string")], body: None, codes: &[200], sample_body: "", components: &["Page", "Item"] },
     Sig { id: 4, params: &[], query: &[], body: Some("application/json"), codes: &[201], sample_body: r#"{"name":"n","tags":[],"parent":null}"#, components: &["Item"] },
     Sig { id: 5, params: &["integer"], query: &[], body: Some("application/json"), codes: &[200, 404, 500], sample_body: r#"{"name":"n","parent":null}"#, components: &["Item"] },
     Sig { id: 6, params: &[], query: &[], body: Some("application/x-www-form-urlencoded"), codes: &[204], sample_body: "user=u&pass=p", components: &[] },
-    Sig { id: 7, params: &["string"], query: &[("q", true, "string"), ("lang", true, "string"), ("page", false, "integer"), ("from", true, "integer")], body: None, codes: &[200], sample_body: "", components: &["Item"] },
+    Sig { id: 7, params: &["string"], query: &[("q", true, "string"), ("lang", true, "string"), ("page", false, "integer"), ("from", true, "integer"), ("pageSize", false, "integer"), ("sort_by", false, "string")], body: None, codes: &[200], sample_body: "", components: &["Item"] },
     Sig { id: 8, params: &[], query: &[], body: None, codes: &[204], sample_body: "", components: &[] },
     Sig { id: 9, params: &[], query: &[], body: None, codes: &[200], sample_body: "", components: &["Item"] },
 ];
